@@ -113,7 +113,7 @@ class C10(HistoryCheck):
             role = world.role_of(inst)
             anys = [n for n, a in world.info(role).items() if a["kind"] == "any"]
             if anys:
-                v = s.choice(SPECIAL_VALUES + [["selfref", "direct"], ["selfref", "list"], ["selfref", "klist"], ["selfref", "dict"],
+                v = s.choice(SPECIAL_VALUES + [["selfref", "direct"], ["selfref", "list"], ["selfref", "klist"], ["selfref", "dict"], ["selfref", "kset"],
                                                ["ownmeth", "self"], ["ownmeth", "twin"]])
                 return {"op": "set", "on": {"i": iid}, "a": s.choice(anys), "v": v, "id": world.fresh_id()}
         if world.insts and s.chance(0.08):
@@ -145,6 +145,9 @@ class C10(HistoryCheck):
                     val = KeyedList([tgt], key=(lambda o: getattr(o, "name", None) or id(o)))
                 except Exception:  # noqa: BLE001
                     val = [tgt]
+            elif how == "kset":
+                from spec_classes.types import KeyedSet
+                val = KeyedSet([tgt], key=(lambda o: getattr(o, "name", None) or id(o)))
             had = op["a"] in tgt.__dict__
             old = tgt.__dict__.get(op["a"])
             tgt.__dict__[op["a"]] = val
